@@ -98,14 +98,20 @@ func start(cfg *config.Config) {
 	// input is from a live GNSS device, the function will run until
 	// the device stops sending or this process is killed.
 	recorderChannel := make(chan []byte)
-	defer close(recorderChannel)
+	recorderDone := make(chan struct{})
 	dailyRecorder := newLogWriter(cfg)
-	go recorder(recorderChannel, dailyRecorder, cfg)
+	go func() {
+		defer close(recorderDone)
+		recorder(recorderChannel, dailyRecorder, cfg)
+	}()
 
 	readAndWrite(recorderChannel, cfg)
 
-	// Done.  The defer above closes the recorder channel, which stops
-	// the recorder goroutine.
+	// Done.  Closing the recorder channel stops the recorder goroutine.
+	// Wait until it has written everything it was given, otherwise the
+	// process exits and the end of the record is lost.
+	close(recorderChannel)
+	<-recorderDone
 }
 
 // readAndWrite runs until the input is exhausted (which may never
